@@ -9,7 +9,8 @@
 From Coq Require Import List NArith ZArith Bool.
 From Coq Require String.
 From NSQV Require Import gen.Consts gen.WireLayout model.Judge model.Guid model.Relay model.Wire
-  proofs.GuidProofs proofs.RelayProofs proofs.WireProofs proofs.WireLayoutProofs.
+  proofs.GuidProofs proofs.RelayProofs proofs.WireProofs proofs.WireLayoutProofs
+  gen.PoolUse model.Pool proofs.PoolProofs.
 Import ListNotations.
 Open Scope Z_scope.
 
@@ -258,3 +259,49 @@ Theorem C07_source_layout :
 Proof. exact source_layout_is_modelled. Qed.
 Print Assumptions C07_source_layout.
 
+(* ---------------------------------------------------------------- pooled serialisation buffers *)
+(* SendMessage and writeMessageToBackend serialise into buffers taken from a shared pool
+   and hand the buffer's memory to a sink that may block part-way (a full TCP window, a
+   contended write lock, a slow disk queue).  Whatever number of such calls run
+   concurrently, however their steps interleave, whichever buffer the pool hands out and
+   however the sinks cut the writes: what a call's sink receives is a prefix of that call's
+   own record, and exactly the record when the call is done.  The release discipline
+   [src_late] is the one read from the Go source (gen/PoolUse.v, below). *)
+Theorem C07_pooled_buffers_isolated : forall (recs : nat -> bytes) (sched : list (nat * nat)) (t : nat),
+  let s := prun src_late (pinit recs) sched in
+  (exists n, u_out (p_users s t) = firstn n (recs t)) /\
+  (u_pc (p_users s t) = PDone -> u_out (p_users s t) = recs t).
+Proof. exact Pool_isolation_source. Qed.
+Print Assumptions C07_pooled_buffers_isolated.
+
+(* the statement is not vacuous: the pool is used as a pool (the second call gets the first
+   call's buffer back, its array still holding the first record) and interleaved calls
+   complete; and it is not trivial: releasing before the write breaks it *)
+Example C07_ex_pool_reuse :
+  let s := prun true (pinit ex_recs) ex_seq in
+  u_pc (p_users s 0%nat) = PDone /\ u_out (p_users s 0%nat) = ex_recs 0%nat /\
+  u_pc (p_users s 1%nat) = PDone /\ u_out (p_users s 1%nat) = ex_recs 1%nat /\
+  p_fresh s = 1%nat /\ p_free s = [0%nat].
+Proof. exact Pool_example_reuse. Qed.
+
+Example C07_ex_pool_interleaved :
+  let s := prun true (pinit ex_recs) ex_interleaved in
+  u_out (p_users s 0%nat) = ex_recs 0%nat /\ u_out (p_users s 1%nat) = ex_recs 1%nat /\ p_fresh s = 2%nat.
+Proof. exact Pool_example_interleaved. Qed.
+
+Theorem C07_pool_early_release_breaks :
+  exists recs sched t,
+    let s := prun false (pinit recs) sched in
+    u_pc (p_users s t) = PDone /\ u_out (p_users s t) <> recs t.
+Proof. exact Pool_early_release_refuted. Qed.
+Print Assumptions C07_pool_early_release_breaks.
+
+(* the functions of package nsqd that call bufferPoolGet today are the two the model
+   describes; each gives the buffer back when neither it nor any alias of its memory is used
+   any more; bufferPoolPut = Reset, then sync.Pool.Put; bufferPoolGet = sync.Pool.Get *)
+Theorem C07_source_pool_discipline :
+  pu_users = [("SendMessage", true); ("writeMessageToBackend", true)]%string /\
+  src_late = true /\
+  pu_put_calls = ["b.Reset"; "bp.Put"]%string /\ pu_get_is_pool_get = true.
+Proof. exact Pool_source_discipline. Qed.
+Print Assumptions C07_source_pool_discipline.
